@@ -429,6 +429,23 @@ static void gen(Emitter &em, const Options &opt) {
         sweep("u16", a16, l16, false);
         sweep("u32", a32, l32, false);
         sweep("w", a32, thorough ? 3 : 2, true);
+        // every sizing boundary of every target encoding (1/2/3/4-byte and 1/2-unit results), alone and repeated, so that a
+        // measure pass and a fill pass that disagree at one boundary value are seen (one occurrence loses the terminator,
+        // two overrun the block)
+        {
+            std::vector<uint32_t> bnd = {0x41, 0x7F, 0x80, 0xFF, 0x100, 0x7FF, 0x800, 0x801, 0xD7FF, 0xE000, 0xFFFF, 0x10000, 0x10001, 0x10FFFF};
+            std::vector<uint64_t> bidx; for (size_t i = 0; i < bnd.size(); ++i) bidx.push_back(i);
+            for (const auto &src : ENCS) {
+                if (src == "l1") continue;
+                all_strings(bidx, 2, [&](const std::vector<uint64_t> &ix) {
+                    if (ix.empty() || !in_slice()) return;
+                    std::vector<uint64_t> u; for (auto i : ix) enc(src, bnd[i], u);
+                    emit_all_routes(em, src, u, modes3, false);
+                    std::vector<uint64_t> rep; for (int r = 0; r < 3; ++r) for (auto i : ix) enc(src, bnd[i], rep);
+                    emit_all_routes(em, src, rep, {"c"}, false);
+                });
+            }
+        }
         // valid text with one malformed unit spliced at every position / cut at every unit (C03)
         std::vector<uint32_t> text = {0x41, 0xE9, 0x20AC, 0x1F600, 0x7A, 0x10FFFF, 0x7FF};
         for (const auto &src : {std::string("u8"), std::string("u16"), std::string("u32")}) {
